@@ -63,6 +63,7 @@ package keeper
 //@                               && (maxSupply == 0 ==> get(tokens, symbol).MaxSupply == t0.MaxSupply)
 //@                               && (maxSupply > 0 ==> get(tokens, symbol).MaxSupply == maxSupply)
 //@   ensures only_this: err == nil ==> tokens == set(old(tokens), symbol, get(tokens, symbol))
+//@   ensures rejected: err != nil ==> tokens == old(tokens)
 //@ end
 
 //@ func Keeper.MintToken
@@ -103,6 +104,7 @@ package keeper
 //@   modifies tokens, byOwner
 //@   ensures owner_only: err == nil ==> old(has(tokens, symbol)) && bech(srcOwner) == t0.Owner
 //@   ensures handed:     err == nil ==> tokens == set(old(tokens), symbol, with(t0, "Owner", bech(dstOwner)))
+//@   ensures rejected:   err != nil ==> tokens == old(tokens)
 //@ end
 
 // Issue / mint fee (C09, C16): tax to the fee collector, the rest burned, nothing left in the module account.
@@ -163,4 +165,50 @@ package keeper
 //@   requires len(symbol) >= 3
 //@   ensures fee_ok: fee.Amount >= 1 && fee.Denom == get(prm).IssueTokenBaseFee.Denom && params == get(prm)
 //@   nopanic
+//@ end
+
+// ---------------------------------------------------------------------------------------------
+// Message handlers (C09): the signer named in the message is the party the keeper checks
+
+//@ func msgServer.EditToken
+//@   property C09
+//@   returns resp, err
+//@   requires tokWF(msg.Symbol)
+//@   let t0 = get(tokens, msg.Symbol)
+//@   modifies tokens
+//@   ensures signer_is_owner: err == nil ==> old(has(tokens, msg.Symbol)) && msg.Owner == t0.Owner
+//@   ensures cap_covers_supply: err == nil && msg.MaxSupply > 0 ==> msg.MaxSupply * pow10(t0.Scale) >= supply(t0.MinUnit)
+//@   ensures rejected: err != nil ==> tokens == old(tokens)
+//@ end
+
+//@ func msgServer.TransferTokenOwner
+//@   property C09
+//@   returns resp, err
+//@   requires tokWF(msg.Symbol)
+//@   let t0 = get(tokens, msg.Symbol)
+//@   modifies tokens, byOwner
+//@   ensures signer_is_owner: err == nil ==> old(has(tokens, msg.Symbol)) && msg.SrcOwner == t0.Owner
+//@   ensures handed:   err == nil ==> tokens == set(old(tokens), msg.Symbol, with(t0, "Owner", msg.DstOwner))
+//@   ensures rejected: err != nil ==> tokens == old(tokens)
+//@ end
+
+//@ func msgServer.BurnToken
+//@   property C09
+//@   returns resp, err
+//@   requires msg.Coin.Amount >= 0
+//@   requires has(burned, msg.Coin.Denom) ==> get(burned, msg.Coin.Denom).Denom == msg.Coin.Denom
+//@   modifies bal, supply, burned
+//@   ensures burnt_from_signer: err == nil ==> supply == addcoin(old(supply), msg.Coin.Denom, 0 - msg.Coin.Amount)
+//@          && (forall d:Str :: bal(addr(msg.Sender), d) == old(bal(addr(msg.Sender), d)) - ite(d == msg.Coin.Denom, msg.Coin.Amount, 0))
+//@ end
+
+//@ func msgServer.MintToken
+//@   property C09
+//@   returns resp, err
+//@   requires paramsStored && minUnitWF(msg.Coin.Denom) && msg.Coin.Amount >= 0
+//@   let sym = get(byMinUnit, msg.Coin.Denom)
+//@   let t0 = get(tokens, sym)
+//@   requires has(byMinUnit, msg.Coin.Denom) ==> supply(msg.Coin.Denom) <= capOf(t0) && len(sym) >= 3
+//@   modifies bal, supply
+//@   ensures signer_is_owner: err == nil ==> has(byMinUnit, msg.Coin.Denom) && msg.Owner == t0.Owner && t0.Mintable
 //@ end
